@@ -401,6 +401,9 @@ func (k *Kernel) mask(f *file) uint32 {
 		if len(f.udp.queue) > 0 || f.udp.spurious {
 			m |= syscall.EPOLLIN
 		}
+		if f.udp.pendingErr != 0 {
+			m |= syscall.EPOLLERR
+		}
 		return m
 	}
 	return 0
@@ -558,7 +561,10 @@ func (k *Kernel) write1(f *file, p []byte) (int, syscall.Errno) {
 		return -1, syscall.EPIPE
 	case fkUDP:
 		if f.udp.connected {
-			return len(p), k.sendto(f, p, f.udp.peerIP, f.udp.peerPort)
+			if e := k.sendto(f, p, f.udp.peerIP, f.udp.peerPort); e != 0 {
+				return -1, e
+			}
+			return len(p), 0
 		}
 		return -1, syscall.EDESTADDRREQ
 	case fkTimerfd, fkEpoll, fkListener:
